@@ -397,6 +397,49 @@ fn window_edge(run: &mut Run, dicts: &[DictCase]) {
     run.add("model_frames_validated_by_reference", x[0]);
 }
 
+/// for C18: two dictionaries and a small set of frames (dictionary frames incl. two that reach the dictionary at the
+/// window edge, plain frames, frames that are invalid unless state leaked, an unregistered id) whose histories on one
+/// decoder must give the same outcomes in every feature build
+pub fn history_world() -> Result<(Vec<Vec<u8>>, Vec<(String, Vec<u8>)>), String> {
+    let dicts = dictionaries()?;
+    let data = inputs()[3].clone();
+    let da = &dicts[0];
+    let db = dicts.iter().find(|d| d.name.starts_with("model")).unwrap();
+    let mut frames: Vec<(String, Vec<u8>)> = vec![];
+    frames.push(("libzstd frame with the trained dictionary".into(), refz::compress(&data, &refz::CParams { level: 3, dict_id: true, checksum: true, ..Default::default() }, Some(&da.raw))?));
+    let st = gen::GenState::new(Some(&db.model));
+    let b = gen::make_block(Arch::Comp { lits: LitKind::Treeless(1, 0), count_form: 1, modes: [ModeKind::Rep; 3], pattern: Pattern::Repeats }, &st).ok_or("treeless/repeat block")?;
+    frames.push(("model frame starting from the model dictionary's tables".into(), realize(&FrameSpec { header: Header { window_desc: Some(0), dict_id: Some((1, db.model.id)), checksum: true, ..Default::default() }, blocks: vec![b] }, Some(&db.model)).ok_or("frame b")?.0));
+    frames.push(("plain two-block frame".into(), crate::seeds::windowed(true, 2).frame));
+    frames.push(("plain six-block frame (several windows of output)".into(), crate::seeds::windowed(false, 6).frame));
+    // dictionary reach at the window edge (valid): sensitive to any output accounting that survives a reset
+    let dl = db.model.content.len();
+    for (spill, p2) in [(500usize, 1024usize), (0, 1023)] {
+        let ml1 = dl + spill;
+        let tail: Vec<u8> = (0..p2 - ml1).map(|i| (i * 7 + 3) as u8).collect();
+        let blocks = vec![
+            Block::Compressed { lits: Lits::Raw(tail.clone(), if tail.len() < 32 { 0 } else { 1 }), count_form: 1, modes: pre(), seqs: vec![Seq { ll: 0, ml: ml1 as u32, of: 3 + dl as u32 }], pick: 0 },
+            Block::Compressed { lits: Lits::Raw(vec![], 0), count_form: 1, modes: pre(), seqs: vec![Seq { ll: 0, ml: 3, of: 3 + (p2 + 1) as u32 }], pick: 0 },
+        ];
+        let header = Header { window_desc: Some(0), dict_id: Some((1, db.model.id)), ..Default::default() };
+        frames.push((format!("model dictionary frame reaching the dictionary at output position {p2} of a 1 KiB window (spill {spill})"), realize(&FrameSpec { header, blocks }, Some(&db.model)).ok_or("edge frame")?.0));
+    }
+    // invalid unless state leaked
+    let b = gen::make_block(Arch::Comp { lits: LitKind::Treeless(1, 0), count_form: 1, modes: [ModeKind::Rep; 3], pattern: Pattern::One }, &st).ok_or("leak probe block")?;
+    let mut st2 = EncState::from_dict(&db.model);
+    let mut f = encode_header(&Header::window(0, false)).unwrap();
+    f.extend(encode_blocks(&[b], &mut st2)?);
+    frames.push(("plain frame decodable only with leaked tables".into(), f));
+    let mut st3 = EncState::default();
+    let mut f = encode_header(&Header::window(0, false)).unwrap();
+    f.extend(encode_blocks(&[Block::Compressed { lits: Lits::Raw(b"abcd".to_vec(), 0), count_form: 1, modes: pre(), seqs: vec![Seq { ll: 2, ml: 4, of: 3 + 5 }], pick: 0 }], &mut st3)?);
+    frames.push(("plain frame decodable only with leaked dictionary content".into(), f));
+    let mut f = frames[1].1.clone();
+    f[6] = 0xEE;
+    frames.push(("frame naming an unregistered dictionary".into(), f));
+    Ok((vec![da.raw.clone(), db.raw.clone()], frames))
+}
+
 /// mixes of dictionary frames and plain frames on one decoder vs fresh decoders
 fn histories(run: &mut Run, dicts: &[DictCase], tier: Tier) {
     let th = meter::threads();
